@@ -3,6 +3,7 @@ from ..core import Case
 from .. import decsupport as D
 from ..gen import hx
 from . import c01
+import random
 
 ID = "C02"
 RULE = (
@@ -18,20 +19,57 @@ EXPLANATION = (
 ASSUMPTIONS = ["derive(Debug) bodies are exercised, not modelled", "allocation failure is out of scope"]
 
 
+# the iterators and payload decoders outside the whole-packet doors: NDP options, TCP options, IGMPv3
+# group records, ICMPv6 payload views.  Their operations (and generators) belong to C13 / C17; C02 runs
+# a sample of them with its own oracle (no panic, no abort, no iteration beyond the step bound, and the
+# iterator stays exhausted after an error - the harness calls next() twice more after the end).
+_ITER_OPS = {"view.ndp_opts": 5, "view.ndp_opt": 1, "view.icmp6_payload": 6, "view.igmp": 4, "view.igmp_record": 2,
+             "opt.iter": 9}
+
+
+def _iterator_cases(rng, tier):
+    from . import c13, c17
+    seen = {}
+    step = 1 if tier == "thorough" else None
+    for mod in (c17, c13):
+        r2 = random.Random(rng.randrange(1 << 30))
+        for c in mod.generate(r2, "quick"):
+            op = c.lines[0].split("\t", 1)[0]
+            k = _ITER_OPS.get(op)
+            if k is None:
+                continue
+            seen[op] = seen.get(op, 0) + 1
+            if step is None and seen[op] % k:
+                continue
+            lines = [l for l in c.lines if not l.startswith(("spec.", "impl."))]
+            yield Case(lines, {"iter": op, "d": c.lines[0].split("\t")[-1]})
+
+
 def generate(rng, tier):
     n = 9000 if tier == "quick" else 250000
     tb = 40 if tier == "quick" else 1000
     for start, et, data, meta in D.base_inputs(rng, n, tb):
         yield c01.build(meta)
+    yield from _iterator_cases(rng, tier)
 
 
-is_trivial = c01.is_trivial
-rebuild = c01.build
+def is_trivial(c):
+    if "iter" in c.meta:
+        return len(c.meta.get("d", "")) < 4
+    return c01.is_trivial(c)
+
+
+def rebuild(meta):
+    if "iter" in meta:
+        return None
+    return c01.build(meta)
 
 
 def oracle(c):
     out = []
     for line, o in zip(c.lines, c.impl):
+        if line.startswith("spec."):
+            continue
         if o is None:
             out.append(("no-output", {"line": line[:200]}))
             continue
